@@ -1350,7 +1350,7 @@ pub struct AddressAssignment {
 
 lazy_static! {
     static ref DIRECT_ADDRESS_UNASSIGNED: Regex = Regex::new(r"%([IQM])\*").unwrap();
-    static ref DIRECT_ADDRESS: Regex = Regex::new(r"%([IQM])([XBWDL])?(\d(\.\d)*)").unwrap();
+    static ref DIRECT_ADDRESS: Regex = Regex::new(r"%([IQM])([XBWDL])?(\d+(\.\d+)*)").unwrap();
 }
 
 impl TryFrom<&str> for AddressAssignment {
@@ -1371,10 +1371,12 @@ impl TryFrom<&str> for AddressAssignment {
             let location_prefix = LocationPrefix::try_from(&cap[1])?;
             // The size prefix is optional so the group does not always participate
             let size_prefix = SizePrefix::try_from(cap.get(2).map_or("", |m| m.as_str()))?;
-            let pos: Vec<u32> = cap[3]
+            // A component can have several digits, so it might not fit
+            let pos = cap[3]
                 .split('.')
-                .map(|v| v.parse::<u32>().unwrap())
-                .collect();
+                .map(|v| v.parse::<u32>())
+                .collect::<Result<Vec<u32>, _>>()
+                .map_err(|_| "Address component out of range")?;
 
             return Ok(AddressAssignment {
                 location: location_prefix,
